@@ -108,14 +108,42 @@ _POOL = None
 _FN = None
 
 
+JOB_TIMEOUT = int(os.environ.get("VERIF_JOB_TIMEOUT", "900"))
+
+
+class JobTimeout(BaseException):
+    pass
+
+
+def _alarm(signum, frame):
+    raise JobTimeout("job exceeded %d s: the implementation hangs or is far slower than linear" % JOB_TIMEOUT)
+
+
 def _call(job):
+    import signal
     try:
+        signal.signal(signal.SIGALRM, _alarm)
+        signal.alarm(JOB_TIMEOUT)
+    except ValueError:
+        pass
+    try:
+        if job[0] not in _FN_TABLE:
+            # the pool was forked before that module was imported
+            import importlib
+            importlib.import_module(job[0].rsplit('.', 1)[0])
         return _FN_TABLE[job[0]](*job[1:])
+    except InternalError:
+        raise
     except BaseException:  # noqa: BLE001 - report everything to the parent
         a = Acc()
         a.violation("harness-exception", {"job": repr(job)[:400]},
                     "worker raised while running the implementation:\n" + traceback.format_exc()[-3000:])
         return a
+    finally:
+        try:
+            signal.alarm(0)
+        except ValueError:
+            pass
 
 
 _FN_TABLE = {}
